@@ -6,7 +6,6 @@ import (
 	"fmt"
 	"hash/fnv"
 	"os"
-	"regexp"
 	"runtime/debug"
 	"strings"
 	"sync"
@@ -199,8 +198,6 @@ func guard(f func()) (panicked bool, val string, stack string) {
 	return
 }
 
-var argsRe = regexp.MustCompile(`\(.*\)$`)
-
 // casketFrame returns the innermost casket function on a panic stack (as
 // printed by debug.Stack or by net/http's "panic serving" log), e.g.
 // "push.parseLinkHeader".
@@ -214,10 +211,17 @@ func casketFrame(stack string) string {
 	}
 	for _, l := range lines[start:] {
 		if strings.HasPrefix(l, "github.com/tmpim/casket/") {
-			f := strings.TrimPrefix(l, "github.com/tmpim/casket/")
-			f = argsRe.ReplaceAllString(strings.TrimSpace(f), "")
+			f := strings.TrimSpace(strings.TrimPrefix(l, "github.com/tmpim/casket/"))
+			if i := strings.LastIndex(f, "("); i > 0 {
+				f = f[:i] // argument list
+			}
 			f = strings.TrimPrefix(f, "caskethttp/")
 			if strings.Contains(f, ".Verif") {
+				continue
+			}
+			// ResponseWriter wrappers only pass the call on to net/http; the
+			// culprit is their caller
+			if strings.HasSuffix(f, ".WriteHeader") || strings.HasSuffix(f, ".Write") || strings.HasSuffix(f, ".Flush") {
 				continue
 			}
 			return f
@@ -229,10 +233,10 @@ func casketFrame(stack string) string {
 // Keys of the defect classes predicted in DESIGN.md §5 are kept under their
 // inventory names; any other panic is keyed by its innermost casket function.
 var frameAlias = map[string]string{
-	"push.parseLinkHeader":                 "C19/link-header-slice",
-	"fastcgi.(*FCGIClient).writePairs":     "C19/fcgi-long-header-name",
-	"fastcgi.writeHeader":                  "C19/fcgi-status-out-of-range",
-	"fastcgi.Handler.buildEnv":             "C19/fcgi-split-on-lowercased-path",
+	"push.parseLinkHeader":             "C19/link-header-slice",
+	"fastcgi.(*FCGIClient).writePairs": "C19/fcgi-long-header-name",
+	"fastcgi.writeHeader":              "C19/fcgi-status-out-of-range",
+	"fastcgi.Handler.buildEnv":         "C19/fcgi-split-on-lowercased-path",
 }
 
 func panicKey(stack string) string {
